@@ -353,6 +353,16 @@ func (p *parser) processDeclarations(rules []css_ast.Rule, composesContext *comp
 				borderRadius.mangleCorner(rewrittenRules, decl, p.options.minifyWhitespace, borderRadiusBottomLeft)
 			}
 
+		case css_ast.DAll:
+			// The "all" property resets all other properties, so physical sides must
+			// not be merged across it
+			if p.options.minifySyntax {
+				margin.sides = [4]boxSide{}
+				padding.sides = [4]boxSide{}
+				inset.sides = [4]boxSide{}
+				borderRadius.corners = [4]borderRadiusCorner{}
+			}
+
 		default:
 			// Logical properties such as "margin-block-start" and "inset-inline" set
 			// the same sides as the physical properties (which ones depends on the
